@@ -874,11 +874,11 @@ def merge_and_write(pid, rule, parts, faildir):
     return out
 
 
-def main_entry(pid, rule, script_path, make_strategy, case_fn, explicit_cases=lambda: [], setup=lambda: None, teardown=lambda: None):
+def main_entry(pid, rule, script_path, make_strategy, case_fn, explicit_cases=lambda: [], setup=lambda: None, teardown=lambda: None, need_eph=True):
     """Common main().  make_strategy() -> Hypothesis strategy of JSON-able case dicts; case_fn(ctx, case)."""
     opts = parse_opts(sys.argv[1:])
     os.environ['VERIF_WORKER_SLOT'] = str(opts['worker'] or 0)
-    if not os.path.exists(EPH):
+    if need_eph and not os.path.exists(EPH):
         print('BROKEN: %s missing (make -C %s build/bin/eph)' % (EPH, ROOT), file=sys.stderr)
         return 3
     if not chacha20_selfcheck():
